@@ -147,11 +147,16 @@ impl Property for C04 {
         if api::set_mathml(&xml).is_err() {
             return Outcome::reject("set_mathml failed");
         }
+        // observation hook in /repo (cfg mathcat_verif): how often the optional-word post-processing of speech.rs
+        // (is_repetitive) removed an optional word *together with the text in front of it* -- a listed finding whose
+        // symptom (a missing operand) shows in any language and construct; it is keyed by this root cause
+        let dropped_before = libmathcat::speech::VERIF_REPETITIVE_PREFIX_DROPPED.with(|c| c.get());
         let speech = match api::speech() {
             Ok(s) => s,
             Err(Fail::Err(_)) => return Outcome::reject("get_spoken_text Err (C15)"),
             Err(Fail::Panic(_)) => return Outcome::reject("get_spoken_text panic (C08)"),
         };
+        let prefix_dropped = libmathcat::speech::VERIF_REPETITIVE_PREFIX_DROPPED.with(|c| c.get()) > dropped_before;
         let mut viols = vec![];
         let mut seen = std::collections::BTreeMap::new();
         for l in &lits {
@@ -166,7 +171,7 @@ impl Property for C04 {
                 let kind = structural_class(&tree, l).unwrap_or_else(|| kind_of_literal(&tree, l));
                 // the row-in-exponent loss comes from the language-independent optional-word post-processing
                 // (speech.rs is_repetitive) and is keyed without the language; rule-file losses are per language
-                let sig = if kind == "row-in-exponent" && case.style == "ClearSpeak" { "operand-not-spoken:row-in-exponent:ClearSpeak".to_string() } else { format!("operand-not-spoken:{}:{}:{}", kind, case.language, case.style) };
+                let sig = if prefix_dropped { "operand-not-spoken:is_repetitive-drops-text-before-optional-word".to_string() } else { format!("operand-not-spoken:{}:{}:{}", kind, case.language, case.style) };
                 viols.push((sig, format!("literal {} occurs {} time(s) in the expression but {} time(s) in the speech\nlanguage={} style={} verbosity={}\nmathml: {}\nspeech: {}", l, k, got, case.language, case.style, case.verbosity, xml, speech)));
                 break;
             }
